@@ -535,6 +535,18 @@ def overlap_case(env, p, m):
             except Exception as e:  # noqa
                 got, ok = ('<raised>', type(e).__name__, str(e)[:80]), False
             if not ok:
+                # control: the same value stored alone (its hook has fired, so nothing overlaps now); if that is altered too, the
+                # overlap is not the cause and the case is reported under the signature of the sequential monitor
+                try:
+                    env.store(k + 'c', v)
+                    alone = env.readers(k + 'c')[0][1]()
+                    alone_ok = same(alone, v)
+                except Exception:  # noqa
+                    alone_ok = False
+                if not alone_ok:
+                    problems.append((classify(v, name, True, 'Disk', got), 'stored %s came back as %s through %s (with or without an overlapping store)'
+                                     % (short(v), short(got), name)))
+                    break
                 problems.append(('store_overlap:%s:%s' % (p['mode'], env.cont),
                                  'the value of the %s store (%s) came back through %s as %s; the other store put %s under a different key of the same %s object'
                                  % (who, short(v), name, short(got), short(vb if who[0] == 's' else va), env.kind)))
